@@ -34,7 +34,7 @@ type c19Params struct {
 }
 
 var c19Valid = []string{"tcp/8000", "udp/8000", "tcp/8001", "udp/8001", "tcp/192.0.2.1:8000", "tcp/192.0.2.2:8000",
-	"udp/192.0.2.1:8001", "tcp/[2001:db8::1]:8000", "tcp/65535", "udp/65535", "tcp/:8002", "tcp/1", "tcp/192.0.2.1:8001", "tcp/0", "udp/0"}
+	"udp/192.0.2.1:8001", "udp/192.0.2.2:8001", "udp/192.0.2.1:8000", "tcp/[2001:db8::1]:8000", "tcp/65535", "udp/65535", "tcp/:8002", "tcp/1", "tcp/192.0.2.1:8001", "tcp/0", "udp/0"}
 var c19Bad = []string{"8000", "tcp/8000/x", "sctp/8000", "tcp/65536", "tcp/-1", "tcp/", "/8000", "tcp/abc", "TCP/8000",
 	"tcp/ 8000", "udp/70000", "tcp/192.0.2.1:", "tcp/192.0.2.1:99999", "tcp:8000", "tcp/8000 ", "icmp/1", "tcp/0x50", "tcp/+80"}
 
@@ -83,7 +83,7 @@ func genC19(seed uint64, idx int, tier string) *Scenario {
 				return r.Pick(c19Bad)
 			}
 			// few distinct values so that duplicates and compatible addresses occur
-			return r.Pick(c19Valid[:8+r.Intn(len(c19Valid)-7)])
+			return r.Pick(c19Valid[:10+r.Intn(len(c19Valid)-9)])
 		}
 		for i := 0; i < ne; i++ {
 			var e c19Entry
@@ -250,7 +250,7 @@ func runC19(t *testing.T, sc *Scenario) Result {
 		// probes: every listened address plus unlistened ones from a small universe
 		seen := map[string]bool{}
 		add := func(kind, dst string) {
-			if seen[kind+dst] || len(probes) >= 24 {
+			if seen[kind+dst] || len(probes) >= 30 {
 				return
 			}
 			seen[kind+dst] = true
@@ -269,7 +269,7 @@ func runC19(t *testing.T, sc *Scenario) Result {
 				add(l.Proto, net.JoinHostPort(ip, strconv.Itoa(l.Port)))
 			}
 		}
-		for _, u := range []string{"192.0.2.1:8000", "192.0.2.2:8000", "192.0.2.3:8000", "192.0.2.1:8001", "192.0.2.3:8001", "192.0.2.1:8002", "192.0.2.1:65535", "192.0.2.1:1"} {
+		for _, u := range []string{"192.0.2.1:8000", "192.0.2.2:8000", "192.0.2.3:8000", "192.0.2.1:8001", "192.0.2.2:8001", "192.0.2.3:8001", "192.0.2.1:8002", "192.0.2.1:65535", "192.0.2.1:1"} {
 			add("tcp", u)
 			add("udp", u)
 		}
